@@ -36,8 +36,9 @@ Definition triple_eqb (a b : triple) : bool :=
   | (s, p, o), (s', p', o') => node_eqb s s' && pred_eqb p p' && obj_eqb o o'
   end.
 
-(* table cells: node / predicate / literal / time anchor / the empty cell an OPTIONAL clause leaves behind *)
-Inductive cell := CNode (n : node) | CPred (p : pred) | CLit (l : str) | CTime (t : Z) | CNull.
+(* table cells: node / predicate / literal / time anchor / a string (ID and TYPE aliases) / the empty cell an OPTIONAL
+   clause leaves behind *)
+Inductive cell := CNode (n : node) | CPred (p : pred) | CLit (l : str) | CTime (t : Z) | CStr (s : str) | CNull.
 Definition row := list (str * cell).
 
 Fixpoint lookup (r : row) (b : str) : option cell :=
